@@ -53,6 +53,8 @@ def configs(tier, seed):
     for R in ((5,) if q else (5, 7)):
         out += [dict(name="train sparse_combo R=%d" % R, h="train", R=R, model="combo"),
                 dict(name="train interaction R=%d" % R, h="train", R=R, model="inter"),
+                dict(name="two batches sparse_combo R=%d" % R, h="batches", R=R, model="combo"),
+                dict(name="two batches interaction R=%d" % R, h="batches", R=R, model="inter"),
                 dict(name="refuse sparse_combo R=%d" % R, h="refuse", R=R, model="combo"),
                 dict(name="refuse interaction R=%d" % R, h="refuse", R=R, model="inter"),
                 dict(name="pipeline R=%d" % R, h="pipeline", R=R, chunks=2 if q else 3),
@@ -178,6 +180,40 @@ def h_train(ctx, cfg):
             ref = sps.logit(np.clip(np.array([obs_sym[i]], dtype=float).astype(np.float32), a_min=0.01, a_max=0.99)).tolist()[0]
             ctx.prove(ctx.eq(ys[k], ref), "training target = logit(clip(observation, 0.01, 0.99))", key="combo: target transformation")
     return used
+
+
+def h_batches(ctx, cfg):
+    """observations arrive in two calls (the plates observed first, then the plates observed later): the model ends up
+    trained on every observed experiment it documents using, each exactly once, in arrival order"""
+    np = ctx.np
+    rows = _rows(cfg)
+    R = len(rows)
+    kind = cfg["model"]
+    obs_sym = [ctx.real("ob%d" % i, nonneg=True) for i in range(R)]
+    full = concrete_screen(ctx, rows, observations=obs_sym, mask=[True] * R)
+    pnames = sorted(set(r[5] for r in rows))
+    first = [p for i, p in enumerate(pnames) if ctx.is_true(ctx.bool("pm%d" % i))]
+    sel1 = [r[5] in first for r in rows]
+    sel2 = [not x for x in sel1]
+    if not any(sel1) or not any(sel2):
+        ctx.assume(False)
+    m = _mk_model(ctx, kind, full)
+    m.add_observations(full.subset(np.array(sel1, dtype=bool)))
+    m.add_observations(full.subset(np.array(sel2, dtype=bool)))
+    sid, tid = full.sample_ids.tolist(), full.treatment_ids.tolist()
+    order = [i for i in range(R) if sel1[i]] + [i for i in range(R) if sel2[i]]
+    if kind == "combo":
+        used = order
+    else:
+        used = [i for i in order if tid[i][0] != -1 and tid[i][1] != -1]
+    wm = m.wrapped_model
+    got = [tuple(int(x) for x in g) for g in zip(wm.cline, wm.dd1, wm.dd2)]
+    ctx.prove(m.n_obs() == len(used), "after two calls the model holds every documented observed experiment exactly once",
+              key="%s: number of training rows after two batches" % kind)
+    ctx.prove(got == [(sid[i], tid[i][0], tid[i][1]) for i in used] if len(got) == len(used) else False,
+              "training rows carry the sample and treatment ids of the observed experiments, in arrival order",
+              key="%s: training rows after two batches" % kind)
+    return len(used)
 
 
 def h_refuse(ctx, cfg):
@@ -347,4 +383,4 @@ def h_pipeline(ctx, cfg):
 
 
 def run(ctx, cfg):
-    return {"train": h_train, "refuse": h_refuse, "pipeline": h_pipeline}[cfg["h"]](ctx, cfg)
+    return {"train": h_train, "batches": h_batches, "refuse": h_refuse, "pipeline": h_pipeline}[cfg["h"]](ctx, cfg)
